@@ -13,8 +13,9 @@ use std::collections::HashSet;
 use std::path::{Path, PathBuf};
 use std::sync::Arc;
 
-pub type ExtraFn = dyn Fn(&Exec, &[Ev]) -> Vec<Ev> + Sync + Send;
+pub type ExtraFn = dyn Fn(&[Ev]) -> Vec<Ev> + Sync + Send;
 pub type PostFn = dyn Fn(&mut Exec, &[Ev]) -> Result<(), Fail> + Sync + Send;
+pub type FilterFn = dyn Fn(&[Ev], &Ev) -> bool + Sync + Send;
 
 #[derive(Clone)]
 pub struct Scenario {
@@ -35,6 +36,8 @@ pub struct Scenario {
 	pub extra: Option<Arc<ExtraFn>>,
 	/// additional oracle evaluated after every edge (after the standard one)
 	pub post: Option<Arc<PostFn>>,
+	/// keep only candidate events for which this returns true (history so far, candidate)
+	pub filter: Option<Arc<FilterFn>>,
 	/// offer Drain as an event (collapses the rest of the pipeline in one step)
 	pub drain_event: bool,
 	pub check_iter_rc: bool,
@@ -56,6 +59,7 @@ impl Scenario {
 			init: vec![],
 			extra: None,
 			post: None,
+			filter: None,
 			drain_event: false,
 			check_iter_rc: true,
 		}
@@ -269,7 +273,7 @@ fn run_edge_here(scn: &Scenario, dir: &Path, hist: &[Ev], ev: Option<&Ev>) -> Ed
 			use std::hash::{Hash, Hasher};
 			let mut h = std::collections::hash_map::DefaultHasher::new();
 			ex.pm.hash(&mut h);
-			ex.it.as_ref().map(|i| (i.col, i.pos.clone())).hash(&mut h);
+			ex.it.as_ref().map(|i| (i.col, i.pos.clone(), i.state_string())).hash(&mut h);
 			ex.last_it_result.hash(&mut h);
 			ex.locks.keys().collect::<Vec<_>>().hash(&mut h);
 			extra = fnv(&h.finish().to_le_bytes(), extra);
@@ -325,7 +329,7 @@ struct Node {
 	pm_mask: u8,
 }
 
-fn events_at(scn: &Scenario, n: &Node, probe: Option<&Exec>) -> Vec<Ev> {
+fn events_at(scn: &Scenario, n: &Node) -> Vec<Ev> {
 	let mut v = vec![];
 	if n.commits < scn.max_commits {
 		for tx in scn.alphabet.iter() {
@@ -343,8 +347,11 @@ fn events_at(scn: &Scenario, n: &Node, probe: Option<&Exec>) -> Vec<Ev> {
 	if n.reopens < scn.max_reopen {
 		v.push(Ev::Reopen);
 	}
-	if let (Some(f), Some(ex)) = (&scn.extra, probe) {
-		v.extend(f(ex, &n.hist));
+	if let Some(f) = &scn.extra {
+		v.extend(f(&n.hist));
+	}
+	if let Some(f) = &scn.filter {
+		v.retain(|e| f(&n.hist, e));
 	}
 	v
 }
@@ -399,7 +406,6 @@ pub fn graph_search(scn: &Scenario, budget: &Budget) -> (Stats, Option<Found>) {
 	let _ = std::fs::remove_dir_all(&root_dir);
 	let mut frontier = vec![root];
 	let mut depth = 0;
-	let needs_probe = scn.extra.is_some();
 	while !frontier.is_empty() {
 		if depth >= scn.max_depth {
 			stats.complete = false;
@@ -408,25 +414,9 @@ pub fn graph_search(scn: &Scenario, budget: &Budget) -> (Stats, Option<Found>) {
 		}
 		// all edges of this level
 		let mut edges: Vec<(usize, Ev)> = vec![];
-		if needs_probe {
-			// extras depend on the state: rebuild each node once to ask
-			let probe_dir = workdir(&format!("{}-probe", sanitize(&scn.name)));
-			for (i, n) in frontier.iter().enumerate() {
-				let mut ex = build(scn, &probe_dir).expect("probe build");
-				for e in scn.init.iter().chain(n.hist.iter()) {
-					ex.apply(e).expect("probe replay");
-				}
-				for ev in events_at(scn, n, Some(&ex)) {
-					edges.push((i, ev));
-				}
-				let _ = ex.close();
-			}
-			let _ = std::fs::remove_dir_all(&probe_dir);
-		} else {
-			for (i, n) in frontier.iter().enumerate() {
-				for ev in events_at(scn, n, None) {
-					edges.push((i, ev));
-				}
+		for (i, n) in frontier.iter().enumerate() {
+			for ev in events_at(scn, n) {
+				edges.push((i, ev));
 			}
 		}
 		stats.levels.push((frontier.len(), edges.len()));
